@@ -298,6 +298,10 @@ def _hedging(ctx):
             ctx.ob("R-SDP", pr, f"{nm} primal sense == {want}", pp.sense == want, pp.sense or "?", pp.node)
     for f in (mp, np_):
         sk, p, cons = _prog(m, f)
+        if p is None:
+            # the programme is not built in this method (delegated to a shared helper): nothing here to decide it by
+            ctx.ob("R-SDP", f, "X >= 0", None, "no programme is constructed in this method", required=False)
+            continue
         from ..sdp import r_hermitian_vars
         r_hermitian_vars(ctx, f, sk)
         ok, det, ndd = psd_ok(sk, "x_var")
@@ -327,7 +331,7 @@ def _hedging(ctx):
         brs = [c for c in sk.cons if c.rel in (">>", "<<")]
         rels = {c.rel for c in brs}
         tg = {repr(c.rhs) for c in brs}
-        ctx.ob("R-SIB", f, "both repetition branches use the same inequality against Q", len(brs) == 2 and len(rels) == 1 and tg == {repr(("attr", ("n", "self"), "_q_a"))},
+        ctx.ob("R-SIB", f, "both repetition branches use the same inequality against Q", len(brs) in (1, 2) and len(rels) == 1 and tg == {repr(("attr", ("n", "self"), "_q_a"))},  # (one constraint when the branch only selects the operator)
                f"{len(brs)} branches, relation {sorted(rels)}" if len(brs) == 2 and len(rels) == 1 and len(tg) == 1 else f"branches differ: {[(c.rel, show(c.rhs)[:20]) for c in brs]}")
         d = sk.dangling()
         ctx.ob("R-SDP", f, "S1 every constraint reaches the problem", not d, "ok" if not d else f"`{unparse(d[0].node)[:50]}` dropped")
@@ -338,8 +342,10 @@ def _hedging(ctx):
         kt = N(kdef[0].value) if kdef else None
         okdef = kt is not None and kt[0] == "call" and kt[1] == "cvxpy.kron" and len(kt[2]) == 2 and kt[2][1] == ("n", "y_var") and kt[2][0][0] == "call" and kt[2][0][1] in ("numpy.eye", "numpy.identity")
         for c in brs:
-            okk = okdef and sk.og.derives_from(c.lhs_node, "kron_var")
-            ctx.ob("R-SDP", f, "dual operator is (a permutation of) I (x) Y", bool(okk), "kron(eye, Y) conjugated by the fixed permutation" if okk else f"lhs {show(N(c.lhs_node))[:60]}", c.node)
+            okk = bool(okdef and sk.og.derives_from(c.lhs_node, "kron_var"))
+            if not okk and not kdef and isinstance(c.lhs_node, ast.Call) and getattr(m.resolve_call(f, c.lhs_node), "func", None) is not None:
+                okk = None  # the operator is built by a helper method: not followed by this rule
+            ctx.ob("R-SDP", f, "dual operator is (a permutation of) I (x) Y", okk, "kron(eye, Y) conjugated by the fixed permutation" if okk else f"lhs {show(N(c.lhs_node))[:60]}", c.node)
     for f in (md, nd):
         _no_entrywise_real(ctx, f)
     # subsystems traced: range(0, 2n-1, 2) ; dims [2]*2n
@@ -375,7 +381,7 @@ def _clone(ctx):
         ctx.ob("R-SDP", f, "S3 returns the optimum", all("solve" in repr(t) for _, _, t in rets), "problem.solve()")
     hermitian_square(ctx, pp, skp, "x_var")
     brs = [c for c in skd.cons if c.rel in (">>", "<<")]
-    ctx.ob("R-SDP", dp, "dual feasibility: I (x) I (x) Y >= Q in both repetition branches", len(brs) == 2 and {c.rel for c in brs} == {">>"},
+    ctx.ob("R-SDP", dp, "dual feasibility: I (x) I (x) Y >= Q in both repetition branches", len(brs) in (1, 2) and {c.rel for c in brs} == {">>"},  # (one constraint when the branches only select the operator)
            "both branches `>>`" if len(brs) == 2 and {c.rel for c in brs} == {">>"} else f"{[(c.rel) for c in brs]}")
     _no_entrywise_real(ctx, dp)
     from ..rules import r_dtype_default_buffer
